@@ -6,7 +6,14 @@ use crate::{Cfg, Pr, Symbol, SymbolAttribute, generate_name};
 /// This is necessary for LR parsing to have a single start production with implicit EOF at the end.
 pub fn augment_grammar(cfg: &Cfg) -> Cfg {
     let start_symbol_production_count = cfg.matching_productions(&cfg.st).len();
-    if start_symbol_production_count == 1 {
+    // A start symbol that occurs on a right-hand side must be augmented too, otherwise the
+    // accept action would be placed on inner reductions of the start symbol.
+    let start_symbol_on_rhs = cfg.pr.iter().any(|p| {
+        p.get_r()
+            .iter()
+            .any(|s| matches!(s, Symbol::N(n, ..) if n == &cfg.st))
+    });
+    if start_symbol_production_count == 1 && !start_symbol_on_rhs {
         return cfg.clone();
     }
     let mut new_cfg = cfg.clone();
